@@ -90,7 +90,50 @@ def contracts(env):
                                     ('always_queued_unless_skipping_is_enabled', ens_isn_queue_when_asked),
                                     ('reads_only', ens_isn_reads_only)],
                            covers=['return']))
+    install_check_in_sync(env, cs)
     return cs
+
+
+# ---------------------------------------------------------------- check_in_sync
+# the build gate looks at the tips of the integration branches; those tips are what is merged only if the
+# branches are chained (each includes the tip of its predecessor, the first one the tip of the source branch):
+# otherwise the merge creates a new, never built commit.  check_in_sync is what tells _handle_pull_request so.
+CIS = 'bert_e.workflow.gitwaterflow:check_in_sync'
+
+
+def cis_src(job):
+    return job.git.src_branch
+
+
+def inv_cis(job, wbranches, _i, G, prev=None):
+    return ((prev is None or (prev == cis_src(job) if _i == 0 else prev == wbranches[_i - 1]))
+            and (_i == 0 or incl(G.R, cis_src(job), G.R, wbranches[0]))
+            and all(incl(G.R, wbranches[j], G.R, wbranches[j + 1]) for j in range(_i - 1)))
+
+
+def ens_cis_exact(job, wbranches, out, G):
+    n = len(wbranches)
+    chained = ((n == 0 or incl(G.R, cis_src(job), G.R, wbranches[0]))
+               and all(incl(G.R, wbranches[j], G.R, wbranches[j + 1]) for j in range(n - 1)))
+    return out.returned and out.value == chained
+
+
+def ens_cis_reads_only(job, wbranches, out, G):
+    return unchanged_except(old(G.R), G.R, [])
+
+
+def install_check_in_sync(env, cs):
+    env.loop(CIS, 0, inv_cis)
+    for k in (2, 3):
+        cs.append(Contract(CIS, args={'job': 'HJob', 'wbranches': 'opaque'}, setup=c01.mib_setup_for(k),
+                           label=CIS + '[%d targets]' % k,
+                           ensures=[('true_exactly_when_source_and_integration_branches_are_chained', ens_cis_exact),
+                                    ('reads_only', ens_cis_reads_only)],
+                           covers=['return']))
+    cs.append(Contract(CIS, args={'job': 'HJob', 'wbranches': 'seq[Br]'}, setup=c01_setup,
+                       ensures=[('true_exactly_when_source_and_integration_branches_are_chained', ens_cis_exact),
+                                ('reads_only', ens_cis_reads_only)],
+                       covers=['return']))
 
 
 def extra(rep, tier, seed, budget):
